@@ -613,6 +613,12 @@ def do_codegen(codegen, *mvs) -> CodegenOutput:
     res = {bin: res[bin] if isinstance(res, dict) else getattr(res, canon)
            for canon, bin in algebra.canon2bin.items() if bin in res.keys()}
 
+    if algebra.graded and res:
+        # In graded mode the output consists of complete grades, also when some blades did not receive a term.
+        grades = tuple(sorted({format(bin, 'b').count('1') for bin in res}))
+        zero = '0' if any(isinstance(v, str) for v in res.values()) else 0
+        res = {bin: res.get(bin, zero) for bin in algebra.indices_for_grades[grades]}
+
     if not algebra.cse and any(isinstance(v, str) for v in res.values()):
         return func_builder(res, *mvs, funcname=funcname)
 
